@@ -59,8 +59,12 @@ Tpl(i, ds) ==
 \* "headed": one named component holding everything (every assignment below one expressions("M") header);
 \* only the runs that name it in ExtraLayouts build it
 CompLayouts == {"single", "split", "noparams", "annotated"} \cup ExtraLayouts
+\* "mixed": the first component under a header, the second one WITHOUT a header - its declarations and then its
+\* assignments, written after the headed block (the declaration block ends the header's scope); a writer that puts
+\* the header-less assignments back below the header changes their component
 CompOf(layout, n) == IF layout \in {"single", "noparams", "annotated"} THEN ""
                      ELSE IF layout = "headed" THEN "M"
+                     ELSE IF layout = "mixed" THEN (IF n \in {"x", "p", "u", "c", "dx_dt", "U"} THEN "A" ELSE "")
                      ELSE IF n \in {"x", "p", "u", "c", "dx_dt", "U"} THEN "A" ELSE "B"
 
 VARIABLES deps, sched, i, layout, pc,
@@ -92,6 +96,8 @@ ModelOf(d, lo) ==
   ELSE IF lo = "noparams" THEN [blocks |-> BlocksFor(d, "", AllN \ SeqSet(Params))]
   ELSE IF lo = "annotated" THEN [blocks |-> Annot(BlocksFor(d, "", AllN))]
   ELSE IF lo = "headed" THEN [blocks |-> BlocksFor(d, "M", AllN)]
+  ELSE IF lo = "mixed" THEN [blocks |-> BlocksFor(d, "A", {n \in AllN : CompOf(lo, n) = "A"})
+                                        \o BlocksFor(d, "", {n \in AllN : CompOf(lo, n) = ""})]
   ELSE [blocks |-> BlocksFor(d, "A", {n \in AllN : CompOf(lo, n) = "A"})
                    \o BlocksFor(d, "B", {n \in AllN : CompOf(lo, n) = "B"})]
 
@@ -163,8 +169,8 @@ BlocksJson(bs) == IF bs = <<>> THEN <<>> ELSE
 DepCount == Cardinality(UNION {deps[n] : n \in DOMAIN deps})
 Hash == LET RECURSIVE H(_)
             H(j) == IF j > Len(Build) THEN 0 ELSE (j * 7 + 3) * (1 + Cardinality(deps[Build[j]]) + 2 * Cardinality(deps[Build[j]] \cap {"x", "q", "u"})) + H(j + 1)
-        IN H(1) + (IF layout = "single" THEN 0 ELSE IF layout = "split" THEN 5 ELSE IF layout = "noparams" THEN 11 ELSE IF layout = "headed" THEN 23 ELSE 17)
-LayoutOffset == IF layout = "single" THEN 0 ELSE IF layout = "split" THEN 5 ELSE IF layout = "noparams" THEN 11 ELSE IF layout = "headed" THEN 23 ELSE 17
+        IN H(1) + (IF layout = "single" THEN 0 ELSE IF layout = "split" THEN 5 ELSE IF layout = "noparams" THEN 11 ELSE IF layout = "headed" THEN 23 ELSE IF layout = "mixed" THEN 29 ELSE 17)
+LayoutOffset == IF layout = "single" THEN 0 ELSE IF layout = "split" THEN 5 ELSE IF layout = "noparams" THEN 11 ELSE IF layout = "headed" THEN 23 ELSE IF layout = "mixed" THEN 29 ELSE 17
 \* the structural part alone: selecting base models on it takes every layout of a selected structure
 HashS == Hash - LayoutOffset
 \* a polynomial hash of the dependency sets themselves (Hash, sums of cardinalities, is too regular to sample with)
